@@ -14,6 +14,9 @@ pub struct ChunkReader<'a> {
     chunk_end: usize,
     /// call numbers (fill_buf/read calls counted together) that return Interrupted
     interrupts: Vec<u64>,
+    /// k > 0: every call whose number is 1 modulo k returns Interrupted (k = 2: one transient
+    /// interruption before every successful call)
+    interrupt_every: u64,
     calls: u64,
     pub interrupts_fired: u64,
     pub chunks_exposed: u64,
@@ -28,15 +31,23 @@ impl<'a> ChunkReader<'a> {
             next_size: 0,
             chunk_end: 0,
             interrupts,
+            interrupt_every: 0,
             calls: 0,
             interrupts_fired: 0,
             chunks_exposed: 0,
         }
     }
 
+    /// one transient interruption before every `every - 1` successful calls, for the whole stream
+    pub fn periodic(data: &'a [u8], sizes: Vec<usize>, every: u64) -> Self {
+        let mut s = Self::new(data, sizes, Vec::new());
+        s.interrupt_every = every.max(2);
+        s
+    }
+
     fn maybe_interrupt(&mut self) -> io::Result<()> {
         self.calls += 1;
-        if self.interrupts.contains(&self.calls) {
+        if self.interrupts.contains(&self.calls) || (self.interrupt_every > 0 && self.calls % self.interrupt_every == 1) {
             self.interrupts_fired += 1;
             return Err(io::Error::new(ErrorKind::Interrupted, "injected interrupt"));
         }
